@@ -47,14 +47,16 @@ Theorem add_column_default_refines : forall t n s v t', 0 <= n -> wf t ->
 Proof. exact add_column_default_refines. Qed.
 Print Assumptions add_column_default_refines.
 
-Theorem delete_row_refines : forall t n s t', delete_row t n s = Ok t' ->
+(* on the domain the repaired code and the model share: 0 <= n <= what the table has from the start index
+   (delete_row(0) used to wipe the table - see known_findings.d/C03.json; a longer count is cut short by the code) *)
+Theorem delete_row_refines : forall t n s t', del_in_domain (nrows t) n s -> delete_row t n s = Ok t' ->
   vals t' = p_del_row (vals t) n s /\ nrows t' = nrows t - n /\ ncols t' = ncols t.
-Proof. exact delete_row_refines. Qed.
+Proof. exact delete_row_refines_dom. Qed.
 Print Assumptions delete_row_refines.
 
-Theorem delete_column_refines : forall t n s t', delete_column t n s = Ok t' ->
+Theorem delete_column_refines : forall t n s t', del_in_domain (ncols t) n s -> delete_column t n s = Ok t' ->
   vals t' = p_del_col (vals t) n s /\ nrows t' = nrows t /\ ncols t' = ncols t - n.
-Proof. exact delete_column_refines. Qed.
+Proof. exact delete_column_refines_dom. Qed.
 Print Assumptions delete_column_refines.
 
 (* a write inside the documented limits grows the table to exactly the required size, fills the
